@@ -1235,9 +1235,9 @@ impl Gen {
                 }
             }
             Mode::BadInput => {
-                if self.rng.chance(1, 3) {
-                    self.script_overflowing_topup(names);
-                }
+                // (script_overflowing_topup is not scheduled: the second deposit would lift the MARKET's own bank
+                // balance above 2^128, which the bank stub — like cosmwasm's Coin — cannot represent, so the
+                // message is refused by the chain before the contract sees it; see DESIGN.md §10.7, C12-B3)
             }
         }
     }
@@ -1245,6 +1245,7 @@ impl Gen {
     /// a record already holds more than half of what 128 bits can express of one denomination; the
     /// owner's wallet is refilled from outside and the same amount is sent again: the sum cannot be
     /// recorded, so the top-up must be refused (and must not be stored as a second entry)
+    #[allow(dead_code)]
     fn script_overflowing_topup(&mut self, names: &Names) {
         let m = &names.market;
         let who = "user0";
